@@ -35,6 +35,8 @@ def configs(tier):
         out.append({"n": n, "grant": "refresh", "has_cb": True, "outcomes": ["success"], "stream": n == 3, "cb_kind": "sync-returning-awaitable"})
         out.append({"n": n, "grant": "client_credentials", "has_cb": True, "outcomes": ["success"], "stream": False, "cb_kind": "sync-returning-awaitable"})
         out.append({"n": n, "grant": "client_credentials", "has_cb": True, "outcomes": ["success"], "stream": n == 3, "cc_via_fetch": True})
+        # a provider whose access tokens contain characters outside RFC 6750's b64token grammar (some do): still "the new access token"
+        out.append({"n": n, "grant": "refresh", "has_cb": True, "outcomes": ["success"], "stream": n == 3, "token_suffix": "|v1!"})
     return out
 
 
@@ -58,7 +60,9 @@ def version(auth):
     if auth == "Bearer old0":
         return 0
     if auth and auth.startswith("Bearer new"):
-        return int(auth[len("Bearer new"):])
+        import re
+        m = re.match(r"(\d+)", auth[len("Bearer new"):])
+        return int(m.group(1)) if m else 999
     return 999
 
 
@@ -130,7 +134,7 @@ def oracle(c, out):
             elif version(e["auth"]) != succeeded:
                 bad(f"caller {e['i']}'s protected request carried {e['auth']!r}, not the current token", kind="stale-token-sent")
         elif e["ev"] == "cb_start":
-            if e["new"] != f"new{succeeded}":
+            if e["new"] != f"new{succeeded}" + cfg.get("token_suffix", ""):
                 bad(f"update_token was called with {e['new']!r}, not the refreshed token", kind="callback-token")
     ncb = sum(e["ev"] == "cb_start" for e in evs)
     if cfg["has_cb"] and ncb != succeeded:
